@@ -67,6 +67,21 @@ def case_strategy(draw):
             s = draw(st.sampled_from(["0X", "x", " ", "0x0x"])) + s
         elif m == 2 and s:
             s = s[:-1]
+        elif m == 3 and len(b) >= 1:
+            # whitespace between / around the byte pairs, total length kept even (Python's bytes.fromhex would skip it)
+            ws = draw(st.sampled_from([" ", "\t", "\n", "\r", "\x0b", "\x0c"]))
+            body = s[2:] if s.startswith("0x") else s
+            pairs = [body[i:i + 2] for i in range(0, len(body), 2)]
+            how = draw(st.integers(0, 3))
+            if how == 0:
+                body = (ws * 2).join(pairs)
+            elif how == 1:
+                body = ws.join(pairs) + (ws if len(pairs) % 2 == 0 else "")
+            elif how == 2:
+                body = body + ws * 2
+            else:
+                body = ws + body + ws
+            s = ("0x" if s.startswith("0x") else "") + body
         return {"kind": kind, "arg": s}
     if kind == "base32":
         b = draw(st.binary(max_size=24))
@@ -289,6 +304,10 @@ def judge(case):
     if cls == "ill" and case["kind"] == "int":
         out.append(("accept-malformed:int", "malformed Int accepted: %r" % (case,)))
         return out
+    if cls == "ill" and case["kind"] == "base16":
+        # RFC 4648 base16 leaves no room for interpretation: hex digits only, an even number of them
+        out.append(("accept-malformed:base16", "malformed base16 literal accepted: %r" % (case,)))
+        return out
     mode = pt.Mode.Application
     try:
         teal = pt.compileTeal(pt.Seq(pt.Pop(lit), pt.Int(1)), mode, version=6)
@@ -316,6 +335,18 @@ def multi_strategy(draw):
     """2..5 literals sharing text across kinds: a signature as Bytes(str) and MethodSignature, a hex string as Bytes(str)
     and Bytes('base16', .), an address as Addr and as text, a value spelled in three bases, ints equal in value"""
     items = []
+    if draw(st.integers(0, 4)) == 0:
+        # many repeated integer literals, small (< 128) and large mixed: under assembleConstants each site is an index into
+        # the constant block or a pushint, and must still denote its own literal
+        n = draw(st.integers(4, 9))
+        vals = draw(st.lists(st.one_of(st.integers(0, 127), st.integers(128, 70000), st.sampled_from([2**32, 2**63, 2**64 - 1])), min_size=n, max_size=n, unique=True))
+        for v in vals:
+            for _ in range(draw(st.sampled_from([1, 2, 2, 3, 4]))):
+                items.append({"kind": "int", "arg": {"t": "int", "v": str(v)}})
+        order = draw(st.sampled_from(["grouped", "shuffled"]))
+        if order == "shuffled":
+            items = list(draw(st.permutations(items)))
+        return {"items": items[:40], "version": draw(st.sampled_from([3, 6, 10]))}
     for _ in range(draw(st.integers(1, 2))):
         fam = draw(st.integers(0, 5))
         if fam == 0:
